@@ -81,7 +81,7 @@ def one_point(ctx, tg, cfg, wd, i, rep, un, hun, href, refcfg, points, nsetup, d
 
 
 def check_outcome(ctx, cfg, r, h, label, case, i, un, hun, href, refcfg, mo, points, nsetup, dis):
-    for x in dc.compare_with_model(cfg, r, h, mo, points, nsetup):
+    for x in (dc.compare_with_model(cfg, r, h, mo, points, nsetup) if mo is not None else []):
         dis.append(dict(case=case, detail=x, sig={"stage": "correspondence", "what": x.split(" ")[0]}))
     ctx.count("point:" + label.split(":")[0])
     vio = []
@@ -174,10 +174,10 @@ def run(ctx):
     ctx.trusted.add("not carried by a theorem: delivery of a signal inside library code (exercised by the asynchronous stream in "
                     "the thorough tier only); async-signal-safety of Display::SIGINT_handler (stores to a volatile bool) is read off the source")
     dis = []
-    if not coq["make_ok"] or not coq["extract_ok"] or not os.path.exists(vp_coq.model_path("driver")):
-        conclude(ctx, coq, dis)
-        return
-    points, setup = dc.point_tables()
+    # decision rule: a broken proof/translation stage does not stop the check - the property oracle still runs on
+    # the binary to look for a concrete failing input; only the model comparison is skipped
+    use_model = bool(coq["make_ok"] and coq["extract_ok"] and os.path.exists(vp_coq.model_path("driver")))
+    points, setup = dc.point_tables() if use_model else ([], [])
     wd = workdir(ctx)
     tfile = os.path.join(wd, "track.txt")
     with open(tfile, "w") as f:
@@ -194,8 +194,7 @@ def run(ctx):
             ctx.violation("impl-oracle", "uninterrupted run failed", case=dict(cmd=un["cmd"]), observed=un["log"][-400:], sig={"oracle": "run-failed"})
             continue
         nsetup = len([l for l in un["labels"] if l.startswith("setup:")])
-        mo = dc.run_model([("m", cfg, None, False, nsetup)])["m"]
-        for x in dc.compare_with_model(cfg, un, hun, mo, points, nsetup):
+        for x in (dc.compare_with_model(cfg, un, hun, dc.run_model([("m", cfg, None, False, nsetup)])["m"], points, nsetup) if use_model else []):
             dis.append(dict(case=dict(cmd=un["cmd"]), detail=x, sig={"stage": "correspondence", "what": x.split(" ")[0]}))
         P = len(un["labels"])
         # a run takes ~0.1 s: every point of the run is enumerated in both tiers (P+1: one index beyond the last point)
@@ -205,10 +204,10 @@ def run(ctx):
             plan.append((i, False))
             if ctx.rng.random() < (0.34 if ctx.quick() else 0.25):
                 plan.append((i, True))
-        models = dc.run_model([("p%d_%d" % (i, rep), cfg, i, rep, nsetup) for i, rep in plan])
+        models = dc.run_model([("p%d_%d" % (i, rep), cfg, i, rep, nsetup) for i, rep in plan]) if use_model else {}
         for i, rep in plan:
             r, h, label, case = one_point(ctx, tg, cfg, wd, i, rep, un, hun, href, refcfg, points, nsetup, dis, "c%d" % ci)
-            check_outcome(ctx, cfg, r, h, label, case, i, un, hun, href, refcfg, models["p%d_%d" % (i, rep)], points, nsetup, dis)
+            check_outcome(ctx, cfg, r, h, label, case, i, un, hun, href, refcfg, models.get("p%d_%d" % (i, rep)), points, nsetup, dis)
             ntr += 1
         ctx.extra.setdefault("points_per_run", []).append(P)
     if not ctx.quick():
